@@ -17,9 +17,14 @@ pub open spec fn rk_at(r: Seq<nat>, s: u32) -> nat {
     r[s as int - 1]
 }
 
+/// the rank of s exceeds the rank of its parent (a named predicate so that the quantifier in `has_rank` is only
+/// instantiated on request: triggering on `rk_at` walks up the whole ancestor chain)
+pub open spec fn rank_step(f: &Fsm, r: Seq<nat>, s: u32) -> bool {
+    rk_at(r, parent_of(f, s)) < rk_at(r, s)
+}
+
 pub open spec fn has_rank(f: &Fsm, r: Seq<nat>) -> bool {
-    r.len() == f.states@.len() && forall|s: u32|
-        valid_id(f, s) && parent_of(f, s) != 0 ==> rk_at(r, parent_of(f, s)) < #[trigger] rk_at(r, s)
+    r.len() == f.states@.len() && forall|s: u32| valid_id(f, s) && parent_of(f, s) != 0 ==> #[trigger] rank_step(f, r, s)
 }
 
 /// a state with a parent is listed among the parent's children (history pseudo-states are kept in `history` instead)
@@ -79,6 +84,7 @@ pub proof fn lemma_rank(f: &Fsm, s: u32)
         valid_id(f, parent_of(f, s)),
 {
     assert(has_rank(f, rank(f)));
+    assert(rank_step(f, rank(f), s));
 }
 
 /// W3C getProperAncestors(s1, s2): ancestors of s1 in ancestry order (parent first) up to but not including s2;
@@ -350,6 +356,7 @@ pub proof fn lemma_ht(f: &Fsm, s: u32)
 {
     assert(has_rank(f, rank(f)));
     lemma_max_rank_bound(rank(f), rank(f).len() as int, s as int - 1);
+    assert(rank(f)[s as int - 1] == rk_at(rank(f), s));
     if parent_of(f, s) != 0 {
         lemma_rank(f, s);
     }
